@@ -78,6 +78,15 @@ VARIANTS = {
     'body-crlf-vs-lf-html': ({'body': '<p>a\r\nb ${v}</p>\r\n'}, {'body': '<p>a\nb ${v}</p>\n'}),
     'body-inner-whitespace': ({'body': '<p class="a  b">a  b ${v}</p>'}, {'body': '<p class="a b">a b ${v}</p>'}),
     'body-letter-case': ({'body': '<P Title="T">x ${v}</P>'}, {'body': '<p title="T">x ${v}</p>'}),
+    # the same document as str and as bytes: how it is classified (XML or HTML) is not part of the cache key,
+    # so both inputs must be classified alike
+    'input-str-vs-bytes-space-before-xml-declaration': (
+        {'body': '\n <?xml version="1.0"?>\r\n<input checked="${1}" tal:attributes="selected v"/>\r\n'},
+        {'body': '\n <?xml version="1.0"?>\r\n<input checked="${1}" tal:attributes="selected v"/>\r\n', 'as_bytes': 'utf-8'}),
+    'input-str-vs-bytes-xml-declaration': (
+        {'body': '<?xml version="1.0"?>\r\n<input checked="${1}"/>\r\n<p>\xe9</p>'},
+        {'body': '<?xml version="1.0"?>\r\n<input checked="${1}"/>\r\n<p>\xe9</p>', 'as_bytes': 'utf-8'}),
+    'input-str-vs-bytes-html': ({'body': '<input checked="${1}"/>\r\n<p>\xe9</p>'}, {'body': '<input checked="${1}"/>\r\n<p>\xe9</p>', 'as_bytes': 'utf-8'}),
     'body-trailing-newline': ({'body': '<p>x ${v}</p>\n'}, {'body': '<p>x ${v}</p>'}),
     'extra_builtins': ({'body': '<p>${zz|0}</p>'}, {'body': '<p>${zz|0}</p>', 'cfg': {'extra_builtins': {'zz': 1}}}),
     'extra_builtins-names-concatenate': ({'body': '<p>${ab|"-"};${c|"-"};${a|"-"};${bc|"-"}</p>', 'cfg': {'extra_builtins': {'ab': 'AB', 'c': 'C'}}},
